@@ -297,6 +297,7 @@ def script_relay_class():
             rcpts = list(envelope.recipients)
             rec = {'k': mk, 'n': n, 'attempts_arg': attempts, 'rcpts': rcpts,
                    't0': w.loop._now, 't1': None, 'truth': None,
+                   'start_seq': w.counter('attseq'), 'end_seq': None,
                    'shape': spec['t'], 'sender': envelope.sender,
                    'replies': {}}
             self.obs['attempts'].append(rec)
@@ -351,6 +352,7 @@ def script_relay_class():
             finally:
                 rec['truth'] = truth
                 rec['t1'] = w.loop._now
+                rec['end_seq'] = w.counter('attseq')
                 w.log('ATT', str(mk), n, 'end')
 
     return ScriptRelay
